@@ -801,6 +801,180 @@ proof fn lemma_kinv_unite(t0: &CosetTable, t1: &CosetTable, q: Seq<(int, int)>, 
     }
 }
 
+// =====================================================================================================
+// C11: "the action is transitive".  T: every row is connected to row 0, where x and y are connected iff EVERY function that is
+// constant on the classes, on the pending pairs and along every entry of a live row agrees on them.
+// =====================================================================================================
+pub open spec fn tadm(t: &CosetTable, pend: Seq<(int, int)>, f: spec_fn(int) -> int) -> bool {
+    &&& resp(t, pend, f)
+    &&& forall|k: int, g: int| canonical(t, k) && t.gen_ok(g) && t.raw(k, g) >= 0 ==> f(#[trigger] t.raw(k, g)) == f(k)
+}
+pub open spec fn tconn(t: &CosetTable, pend: Seq<(int, int)>, x: int, y: int) -> bool {
+    forall|f: spec_fn(int) -> int| #[trigger] tadm(t, pend, f) ==> f(x) == f(y)
+}
+pub open spec fn tinv(t: &CosetTable, pend: Seq<(int, int)>) -> bool {
+    forall|c: int| 0 <= c < t.table@.len() ==> #[trigger] tconn(t, pend, c, 0)
+}
+// C11: every row is reached from row 0 by a word in the generators
+pub open spec fn transitive(t: &CosetTable) -> bool {
+    forall|r: int| #[trigger] is_row(t, r) ==> exists|w: Seq<isize>| gens_ok(t, w) && #[trigger] trace(t, 0, w) == Some(r as usize)
+}
+
+// T survives any change under which every admissible function stays admissible (all steps of the enumeration only add constraints)
+proof fn lemma_tinv_step(t0: &CosetTable, p0: Seq<(int, int)>, t1: &CosetTable, p1: Seq<(int, int)>)
+    requires tinv(t0, p0), t1.table@.len() == t0.table@.len(), forall|f: spec_fn(int) -> int| #[trigger] tadm(t1, p1, f) ==> tadm(t0, p0, f)
+    ensures tinv(t1, p1)
+{
+    assert forall|c: int| 0 <= c < t1.table@.len() implies #[trigger] tconn(t1, p1, c, 0) by {
+        assert(tconn(t0, p0, c, 0));
+        assert forall|f: spec_fn(int) -> int| #[trigger] tadm(t1, p1, f) implies f(c) == f(0) by { assert(tadm(t0, p0, f)); }
+    }
+}
+
+// a table entry written into a live row that had none there: every function admissible afterwards was admissible before
+proof fn lemma_tadm_set(t0: &CosetTable, t1: &CosetTable, pend: Seq<(int, int)>, b: int, g: int, f: spec_fn(int) -> int)
+    requires tadm(t1, pend, f), same_rows(t0, t1), t1.part == t0.part, 0 <= b < t0.table@.len(), t0.gen_ok(g), t0.raw(b, g) < 0,
+        forall|c2: int, g2: int| 0 <= c2 < t0.table@.len() && t0.col_ok(g2) && !(c2 == b && g2 == g) ==> #[trigger] t1.raw(c2, g2) == t0.raw(c2, g2),
+    ensures tadm(t0, pend, f)
+{
+    assert forall|k: int, h: int| canonical(t0, k) && t0.gen_ok(h) && t0.raw(k, h) >= 0 implies f(#[trigger] t0.raw(k, h)) == f(k) by {
+        assert(canonical(t1, k));
+        assert(t1.raw(k, h) == t0.raw(k, h));
+    }
+}
+
+// the union: a function admissible afterwards was admissible before, with the pair (a, b) pending (the columns of a and b are synced)
+proof fn lemma_tadm_unite(t0: &CosetTable, t1: &CosetTable, q: Seq<(int, int)>, a: int, b: int, f: spec_fn(int) -> int)
+    requires rows_ok(t0), rows_ok(t1), same_rows(t0, t1), tadm(t1, q, f),
+        0 <= a < t0.table@.len(), 0 <= b < t0.table@.len(), t0.part.rep(a) == a, t0.part.rep(b) == b,
+        forall|g: int| t0.gen_ok(g) ==> #[trigger] synced(t0, q.push((a, b)), a, b, g),
+        united(|z: int| t0.part.rep(z), |z: int| t1.part.rep(z), a, b),
+        forall|c2: int, g2: int| 0 <= c2 < t0.table@.len() && t0.col_ok(g2) ==> #[trigger] t1.raw(c2, g2) == t0.raw(c2, g2),
+    ensures tadm(t0, q.push((a, b)), f)
+{
+    let p = q.push((a, b));
+    let ra = |z: int| t0.part.rep(z);
+    let rb = |z: int| t1.part.rep(z);
+    assert(rb(a) == rb(b) && (rb(a) == a || rb(a) == b));
+    assert(resp(t0, p, f)) by {
+        assert forall|u: int| #[trigger] f(t0.part.rep(u)) == f(u) by {
+            let v = t0.part.rep(u);
+            assert(rb(u) == (if ra(u) == ra(a) || ra(u) == ra(b) { rb(a) } else { ra(u) }));
+            assert(rb(v) == (if ra(v) == ra(a) || ra(v) == ra(b) { rb(a) } else { ra(v) }));
+            assert(t0.part.rep(t0.part.rep(u)) == t0.part.rep(u));
+            assert(f(t1.part.rep(u)) == f(u)); assert(f(t1.part.rep(v)) == f(v));
+        }
+        assert(f(t1.part.rep(a)) == f(a)); assert(f(t1.part.rep(b)) == f(b));
+        assert forall|k: int| 0 <= k < p.len() implies f((#[trigger] p[k]).0) == f(p[k].1) by { if k < q.len() { assert(p[k] == q[k]); } }
+    }
+    assert forall|k: int, h: int| canonical(t0, k) && t0.gen_ok(h) && t0.raw(k, h) >= 0 implies f(#[trigger] t0.raw(k, h)) == f(k) by {
+        assert(rb(k) == (if ra(k) == ra(a) || ra(k) == ra(b) { rb(a) } else { ra(k) }));
+        assert(t1.raw(k, h) == t0.raw(k, h));
+        if t1.part.rep(k) == k {
+            assert(canonical(t1, k));
+        } else {
+            // k is the row that dies: its entry is synced with the survivor's
+            assert(k == a || k == b);
+            let o = if k == a { b } else { a };
+            assert(t1.part.rep(o) == o);
+            assert(canonical(t1, o));
+            assert(synced(t0, p, a, b, h));
+            assert(t0.raw(a, h) >= 0 && t0.raw(b, h) >= 0 && eqv(t0, p, t0.raw(a, h), t0.raw(b, h)));
+            assert(f(t0.raw(a, h)) == f(t0.raw(b, h)));
+            assert(t1.raw(o, h) == t0.raw(o, h));
+            assert(f(t1.raw(o, h)) == f(o));
+            assert(f(a) == f(b));
+        }
+    }
+}
+
+// T survives join(c, d, g) (d possibly the new row): the new row is connected to c by the new entry
+proof fn lemma_tinv_join(t0: &CosetTable, t1: &CosetTable, c: int, d: int, g: int)
+    requires rows_ok(t0), rows_ok(t1), tinv(t0, Seq::<(int, int)>::empty()), t1.part == t0.part, t1.nr_gens == t0.nr_gens,
+        t1.table@.len() >= t0.table@.len(), t1.table@.len() <= t0.table@.len() + 1, 0 <= c < t0.table@.len(), 0 <= d < t1.table@.len(), t0.gen_ok(g),
+        t0.part.rep(c) == c, t0.raw(c, g) < 0, d < t0.table@.len() ==> t0.raw(d, -g) < 0,
+        t1.table@.len() > t0.table@.len() ==> d == t0.table@.len(),
+        t1.raw(c, g) == d,
+        forall|c2: int, g2: int| 0 <= c2 < t1.table@.len() && t0.col_ok(g2) && !(c2 == c && g2 == g) && !(c2 == d && g2 == -g)
+            ==> #[trigger] t1.raw(c2, g2) == (if c2 < t0.table@.len() { t0.raw(c2, g2) } else { -1 }),
+    ensures tinv(t1, Seq::<(int, int)>::empty())
+{
+    let e = Seq::<(int, int)>::empty();
+    assert forall|f: spec_fn(int) -> int| #[trigger] tadm(t1, e, f) implies tadm(t0, e, f) by {
+        assert forall|k: int, h: int| canonical(t0, k) && t0.gen_ok(h) && t0.raw(k, h) >= 0 implies f(#[trigger] t0.raw(k, h)) == f(k) by {
+            assert(canonical(t1, k));
+            assert(!(k == c && h == g));
+            assert(!(k == d && h == -g));
+            assert(t1.raw(k, h) == t0.raw(k, h));
+        }
+    }
+    assert forall|x: int| 0 <= x < t1.table@.len() implies #[trigger] tconn(t1, e, x, 0) by {
+        assert(tconn(t0, e, c, 0));
+        assert forall|f: spec_fn(int) -> int| #[trigger] tadm(t1, e, f) implies f(x) == f(0) by {
+            assert(tadm(t0, e, f));
+            if x < t0.table@.len() { assert(tconn(t0, e, x, 0)); }
+            else {
+                assert(x == d);
+                assert(canonical(t1, c));
+                assert(f(t1.raw(c, g)) == f(c));
+            }
+        }
+    }
+}
+
+// with nothing pending, connected to row 0 means reached from (the representative of) row 0 by a word
+pub open spec fn reachable(t: &CosetTable, x: int) -> bool {
+    exists|w: Seq<isize>| gens_ok(t, w) && #[trigger] trace(t, t.part.rep(0), w) == Some(t.part.rep(x) as usize)
+}
+pub open spec fn reach_all(t: &CosetTable) -> bool { forall|c: int| 0 <= c < t.table@.len() ==> #[trigger] reachable(t, c) }
+
+proof fn lemma_tinv_reach(t: &CosetTable)
+    requires rows_ok(t), all_complete(t), inv_consistent(t), tinv(t, Seq::<(int, int)>::empty())
+    ensures reach_all(t)
+{
+    let e = Seq::<(int, int)>::empty();
+    let f = |x: int| if reachable(t, x) { 1int } else { 0int };
+    assert(tadm(t, e, f)) by {
+        assert forall|u: int| #[trigger] f(t.part.rep(u)) == f(u) by {
+            assert(t.part.rep(t.part.rep(u)) == t.part.rep(u));
+        }
+        assert forall|k: int, g: int| canonical(t, k) && t.gen_ok(g) && t.raw(k, g) >= 0 implies f(#[trigger] t.raw(k, g)) == f(k) by {
+            let y = t.raw(k, g);
+            lemma_act_in_range(t, k, g);
+            let ry = t.act(k, g).unwrap() as int;
+            assert(ry == t.part.rep(y));
+            if reachable(t, k) {
+                let w = choose|w: Seq<isize>| gens_ok(t, w) && #[trigger] trace(t, t.part.rep(0), w) == Some(t.part.rep(k) as usize);
+                let w2 = w.push(g as isize);
+                assert(w2.drop_last() =~= w);
+                assert(gens_ok(t, w2)) by { assert forall|j: int| 0 <= j < w2.len() implies t.gen_ok(#[trigger] w2[j] as int) by { if j < w.len() { assert(w2[j] == w[j]); } } }
+                assert(trace(t, t.part.rep(0), w2) == Some(ry as usize));
+                assert(reachable(t, y));
+            }
+            if reachable(t, y) {
+                let w = choose|w: Seq<isize>| gens_ok(t, w) && #[trigger] trace(t, t.part.rep(0), w) == Some(t.part.rep(y) as usize);
+                let w2 = w.push((-g) as isize);
+                assert(w2.drop_last() =~= w);
+                assert(t.gen_ok(-g));
+                assert(gens_ok(t, w2)) by { assert forall|j: int| 0 <= j < w2.len() implies t.gen_ok(#[trigger] w2[j] as int) by { if j < w.len() { assert(w2[j] == w[j]); } } }
+                assert(t.act(ry, -g) == Some(k as usize));
+                assert(trace(t, t.part.rep(0), w2) == Some(k as usize));
+                assert(reachable(t, k));
+            }
+        }
+    }
+    assert(reachable(t, 0)) by {
+        let w0 = Seq::<isize>::empty();
+        assert(gens_ok(t, w0));
+        assert(0 <= t.part.rep(0) < t.table@.len());
+        assert(trace(t, t.part.rep(0), w0) == Some(t.part.rep(0) as usize));
+    }
+    assert forall|c: int| 0 <= c < t.table@.len() implies #[trigger] reachable(t, c) by {
+        assert(tconn(t, e, c, 0));
+        assert(f(c) == f(0));
+    }
+}
+
 impl CosetTable {
     //@ begin src/fpgroups/cosets.rs :: impl CosetTable :: fn merge
     //@ rw R17 /for g in self\.all_gens\(\)$/for g in it: self.all_gens()/
@@ -812,12 +986,16 @@ impl CosetTable {
             grows(old(self), final(self)),
             // the inverse-generator bookkeeping survives the processing of all coincidences
             kinv(old(self), Seq::<(int, int)>::empty()) ==> kinv(final(self), Seq::<(int, int)>::empty()),
+            // ... and so does the connection of every row with row 0
+            kinv(old(self), Seq::<(int, int)>::empty()) && tinv(old(self), Seq::<(int, int)>::empty()) ==> tinv(final(self), Seq::<(int, int)>::empty()),
     {
         let mut queue: VecDeque<(usize, usize)> = VecDeque::from([(a, b)]);
         let ghost mut qg: Seq<(usize, usize)> = queue@;
         let ghost k0 = kinv(old(self), Seq::<(int, int)>::empty());
+        let ghost z0 = k0 && tinv(old(self), Seq::<(int, int)>::empty());
         proof {
             if k0 { lemma_kinv_pend(self, Seq::<(int, int)>::empty(), qpairs(queue@)); }
+            if z0 { lemma_tinv_step(self, Seq::<(int, int)>::empty(), self, qpairs(queue@)); }
         }
 
         while let Some((a, b)) = queue.pop_front()
@@ -828,9 +1006,13 @@ impl CosetTable {
                 forall|k: int| 0 <= k < queue@.len() ==> (#[trigger] queue@[k]).0 < self.table@.len() && queue@[k].1 < self.table@.len(),
                 k0 ==> kinv(self, qpairs(queue@)),
                 k0 && queue@.len() == 0 ==> kinv(self, Seq::<(int, int)>::empty()),
+                z0 ==> k0,
+                z0 ==> tinv(self, qpairs(queue@)),
+                z0 && queue@.len() == 0 ==> tinv(self, Seq::<(int, int)>::empty()),
             ensures
                 rows_ok(self), self.nr_gens == old(self).nr_gens, self.table@.len() == old(self).table@.len(), grows(old(self), self),
                 k0 ==> kinv(self, Seq::<(int, int)>::empty()),
+                z0 ==> tinv(self, Seq::<(int, int)>::empty()),
         {
             let ghost a1 = a as int; let ghost b1 = b as int;
             proof {
@@ -859,6 +1041,10 @@ impl CosetTable {
                         }
                     }
                     lemma_kinv_pend(self, qpairs(qg), pp);
+                    if z0 {
+                        assert forall|f: spec_fn(int) -> int| #[trigger] tadm(self, pp, f) implies tadm(self, qpairs(qg), f) by { assert(resp(self, pp, f)); }
+                        lemma_tinv_step(self, qpairs(qg), self, pp);
+                    }
                 }
             }
 
@@ -869,6 +1055,10 @@ impl CosetTable {
                         assert forall|k: int| 0 <= k < pp.len() implies f((#[trigger] pp[k]).0) == f(pp[k].1) by { if k < qq.len() { assert(pp[k] == qq[k]); } }
                     }
                     lemma_kinv_pend(self, pp, qq);
+                    if z0 {
+                        assert forall|f: spec_fn(int) -> int| #[trigger] tadm(self, qq, f) implies tadm(self, pp, f) by { assert(resp(self, qq, f)); }
+                        lemma_tinv_step(self, pp, self, qq);
+                    }
                 }
             }
             if a != b {
@@ -881,6 +1071,8 @@ impl CosetTable {
                         it.seq().len() == 2 * self.nr_gens,
                         forall|k: int| 0 <= k < it.seq().len() ==> self.gen_ok(#[trigger] it.seq()[k] as int) && gen_index(self, it.seq()[k] as int) == k,
                         k0 ==> kinv(self, qpairs(queue@).push((a as int, b as int))),
+                        z0 ==> k0,
+                        z0 ==> tinv(self, qpairs(queue@).push((a as int, b as int))),
                         k0 ==> forall|h: int| self.gen_ok(h) && gen_index(self, h) < it.index() ==> #[trigger] synced(self, qpairs(queue@).push((a as int, b as int)), a as int, b as int, h),
                 {
                     let ghost idx = it.index() as int;
@@ -905,6 +1097,10 @@ impl CosetTable {
                                         }
                                     }
                                     lemma_kinv_pend(self, p0, p1);
+                                    if z0 {
+                                        assert forall|f: spec_fn(int) -> int| #[trigger] tadm(self, p1, f) implies tadm(self, p0, f) by { assert(resp(self, p1, f)); }
+                                        lemma_tinv_step(self, p0, self, p1);
+                                    }
                                     assert forall|h: int| self.gen_ok(h) && gen_index(self, h) < idx + 1 implies #[trigger] synced(self, p1, a as int, b as int, h) by {
                                         if gen_index(self, h) < idx {
                                             assert(synced(self, p0, a as int, b as int, h));
@@ -936,6 +1132,10 @@ impl CosetTable {
                                         }
                                     }
                                     lemma_kinv_set(&s0, self, p0, a as int, b as int, g as int, ag as int);
+                                    if z0 {
+                                        assert forall|f: spec_fn(int) -> int| #[trigger] tadm(self, p0, f) implies tadm(&s0, p0, f) by { lemma_tadm_set(&s0, self, p0, b as int, g as int, f); }
+                                        lemma_tinv_step(&s0, p0, self, p0);
+                                    }
                                     assert forall|h: int| self.gen_ok(h) && gen_index(self, h) < idx + 1 implies #[trigger] synced(self, p0, a as int, b as int, h) by {
                                         if gen_index(self, h) < idx {
                                             assert(h != g);
@@ -964,6 +1164,10 @@ impl CosetTable {
                                     }
                                 }
                                 lemma_kinv_set(&s0, self, p0, b as int, a as int, g as int, bg as int);
+                                if z0 {
+                                    assert forall|f: spec_fn(int) -> int| #[trigger] tadm(self, p0, f) implies tadm(&s0, p0, f) by { lemma_tadm_set(&s0, self, p0, a as int, g as int, f); }
+                                    lemma_tinv_step(&s0, p0, self, p0);
+                                }
                                 assert forall|h: int| self.gen_ok(h) && gen_index(self, h) < idx + 1 implies #[trigger] synced(self, p0, a as int, b as int, h) by {
                                     if gen_index(self, h) < idx {
                                         assert(h != g);
@@ -1037,6 +1241,10 @@ impl CosetTable {
                             assert(0 <= j < 2 * t0.nr_gens);
                         }
                         lemma_kinv_unite(&t0, self, qq2, a as int, b as int);
+                        if z0 {
+                            assert forall|f: spec_fn(int) -> int| #[trigger] tadm(self, qq2, f) implies tadm(&t0, pp2, f) by { lemma_tadm_unite(&t0, self, qq2, a as int, b as int, f); }
+                            lemma_tinv_step(&t0, pp2, self, qq2);
+                        }
                     }
                 }
             }
@@ -1123,6 +1331,8 @@ fn scan_and_connect(
         grows(old(table), final(table)),
         // scanning from a live row keeps the inverse-generator bookkeeping
         old(table).part.rep(start as int) == start && kinv(old(table), Seq::<(int, int)>::empty()) ==> kinv(final(table), Seq::<(int, int)>::empty()),
+        old(table).part.rep(start as int) == start && kinv(old(table), Seq::<(int, int)>::empty()) && tinv(old(table), Seq::<(int, int)>::empty())
+            ==> tinv(final(table), Seq::<(int, int)>::empty()),
 {
     let (head, tail, gap, c) = scan_both_ways(table, w, start);
 
@@ -1137,6 +1347,7 @@ fn scan_and_connect(
             if t0.part.rep(start as int) == start && kinv(&t0, Seq::<(int, int)>::empty()) {
                 assert(t0.raw(head as int, c as int) < 0 && t0.raw(tail as int, -(c as int)) < 0);
                 lemma_kinv_join(&t0, table, head as int, tail as int, c as int);
+                if tinv(&t0, Seq::<(int, int)>::empty()) { lemma_tinv_join(&t0, table, head as int, tail as int, c as int); }
             }
         }
         Some((head, c))
@@ -1194,6 +1405,8 @@ impl CosetTable {
             all_complete(self) ==> complete_table(&result),
             // ... in which inverse generators undo generators if they did on the live rows
             all_complete(self) && inv_consistent(self) ==> valid(&result),
+            // ... and every row is reached from row 0 if every live row was reached from the class of row 0
+            reach_all(self) ==> transitive(&result),
     {
         // number the classes in the order of their first members, so that the
         // class of row 0 (the subgroup itself) stays row 0
@@ -1326,6 +1539,24 @@ impl CosetTable {
             }
             assert forall|c: int| canonical(self, c) implies 0 <= #[trigger] nw[c] < self.table@.len() by { assert(old_to_new@[self.part.rep(c)] != unset); }
             assert(compacted(self, &result, nw));
+            if reach_all(self) {
+                assert forall|r: int| #[trigger] is_row(&result, r) implies exists|w: Seq<isize>| gens_ok(&result, w) && #[trigger] trace(&result, 0, w) == Some(r as usize) by {
+                    let k = n2o[r];
+                    assert(old_to_new@[k] == r);
+                    assert(canonical(self, k));
+                    assert(nw[k] == r);
+                    assert(reachable(self, k));
+                    let w = choose|w: Seq<isize>| gens_ok(self, w) && #[trigger] trace(self, self.part.rep(0), w) == Some(self.part.rep(k) as usize);
+                    let k0 = self.part.rep(0);
+                    assert(0 <= k0 < self.table@.len() && self.part.rep(self.part.rep(0)) == self.part.rep(0));
+                    assert(canonical(self, k0));
+                    lemma_transport(self, &result, nw, k0, w);
+                    assert(nw[k0] == 0);
+                    assert(gens_ok(&result, w)) by { assert forall|j: int| 0 <= j < w.len() implies result.gen_ok(#[trigger] w[j] as int) by { assert(self.gen_ok(w[j] as int)); } }
+                    assert(trace(&result, 0, w) == Some(r as usize));
+                }
+                assert(transitive(&result));
+            }
             if all_complete(self) {
                 assert forall|r: int, g: int| 0 <= r < result.table@.len() && result.gen_ok(g) implies (#[trigger] result.act(r, g)).is_some() && result.act(r, g).unwrap() < result.table@.len() by {
                     let k = n2o[r];
@@ -1474,8 +1705,15 @@ pub open spec fn pass_done(t: &CosetTable, rels: Set<FreeWord>, subs: Seq<FreeWo
 }
 
 // tracing through the compacted table is tracing through the original one, renumbered
+pub open spec fn gens_ok(t: &CosetTable, w: Seq<isize>) -> bool { forall|j: int| 0 <= j < w.len() ==> t.gen_ok(#[trigger] w[j] as int) }
+proof fn lemma_gens_ok(t: &CosetTable, w: Seq<isize>)
+    requires cols_ok(t, w), reduced(w)
+    ensures gens_ok(t, w)
+{
+    assert forall|j: int| 0 <= j < w.len() implies t.gen_ok(#[trigger] w[j] as int) by { assert(t.col_ok(w[j] as int)); }
+}
 proof fn lemma_transport(t: &CosetTable, r: &CosetTable, nw: Seq<int>, k: int, w: Seq<isize>)
-    requires rows_ok(t), compacted(t, r, nw), canonical(t, k), cols_ok(t, w), reduced(w)
+    requires rows_ok(t), compacted(t, r, nw), canonical(t, k), gens_ok(t, w)
     ensures trace(r, nw[k], w) == (match trace(t, k, w) { Some(x) => Some(nw[x as int] as usize), None => None }),
         trace(t, k, w).is_some() ==> canonical(t, trace(t, k, w).unwrap() as int)
     decreases w.len()
@@ -1483,13 +1721,9 @@ proof fn lemma_transport(t: &CosetTable, r: &CosetTable, nw: Seq<int>, k: int, w
     if w.len() > 0 {
         let w0 = w.drop_last();
         let g = w.last();
-        assert(cols_ok(t, w0)) by { assert forall|j: int| 0 <= j < w0.len() implies t.col_ok(#[trigger] w0[j] as int) by { assert(w0[j] == w[j]); } }
-        assert(reduced(w0)) by {
-            assert forall|j: int| 0 <= j < w0.len() implies #[trigger] w0[j] != 0 && w0[j] > isize::MIN by { assert(w0[j] == w[j]); }
-            assert forall|j: int| 0 <= j < w0.len() - 1 implies !neg_eq(#[trigger] w0[j + 1], w0[j]) by { assert(w0[j + 1] == w[j + 1]); assert(w0[j] == w[j]); }
-        }
+        assert(gens_ok(t, w0)) by { assert forall|j: int| 0 <= j < w0.len() implies t.gen_ok(#[trigger] w0[j] as int) by { assert(w0[j] == w[j]); } }
         lemma_transport(t, r, nw, k, w0);
-        assert(w[w.len() - 1] != 0 && t.col_ok(w[w.len() - 1] as int));
+        assert(t.gen_ok(w[w.len() - 1] as int));
         assert(t.gen_ok(g as int));
         if trace(t, k, w0).is_some() {
             let x0 = trace(t, k, w0).unwrap() as int;
@@ -1572,6 +1806,8 @@ pub fn coset_table(
         // C11: "every generator acts on the rows as a permutation whose inverse is the action of the inverse generator": every entry is
         // defined and is a row of the table, and the inverse generator leads back
         complete_table(&result), valid(&result),
+        // C11: "the action is transitive": every row is reached from row 0 by a word in the generators
+        transitive(&result),
         // C11: "every relator traced from every row returns to that row" ...
         forall|m: int, r: int| 0 <= m < relators@.len() && 0 <= r < result.table@.len() ==> #[trigger] trace(&result, r, relators@[m]@) == Some(r as usize),
         // ... "and every generator of H traced from row 0 returns to row 0"
@@ -1583,6 +1819,9 @@ pub fn coset_table(
         assert(all_within(relators@, nr_gens as int));
         assert forall|u: FreeWord| #[trigger] rels@.contains(u) implies within(u@, nr_gens as int) by { }
         assert(rows_ok(&table));
+        assert(tinv(&table, Seq::<(int, int)>::empty())) by {
+            assert forall|c: int| 0 <= c < table.table@.len() implies #[trigger] tconn(&table, Seq::<(int, int)>::empty(), c, 0) by { }
+        }
         assert(kinv(&table, Seq::<(int, int)>::empty())) by { assert forall|c: int, g: int| 0 <= c < table.table@.len() && table.gen_ok(g) implies #[trigger] back_ok(&table, Seq::<(int, int)>::empty(), c, g) by { assert(table.raw(0, g) == -1); } }
     }
 
@@ -1593,8 +1832,8 @@ pub fn coset_table(
             all_within(subgroup_gens@, nr_gens as int),
             forall|u: FreeWord| #[trigger] rels@.contains(u) ==> within(u@, nr_gens as int),
             forall|k: int| 0 <= k < __i && #[trigger] canonical(&table, k) ==> row_complete(&table, k),
-            kinv(&table, Seq::<(int, int)>::empty()),
-        ensures rows_ok(&table), table.nr_gens == nr_gens, all_complete(&table), kinv(&table, Seq::<(int, int)>::empty()),
+            kinv(&table, Seq::<(int, int)>::empty()), tinv(&table, Seq::<(int, int)>::empty()),
+        ensures rows_ok(&table), table.nr_gens == nr_gens, all_complete(&table), kinv(&table, Seq::<(int, int)>::empty()), tinv(&table, Seq::<(int, int)>::empty()),
     {
         let i = __i; __i += 1;
         if i >= table.len() {
@@ -1619,8 +1858,8 @@ pub fn coset_table(
                 forall|j: int| 0 <= j < __gens@.len() ==> table.gen_ok(#[trigger] __gens@[j] as int) && gen_index(&table, __gens@[j] as int) == j,
                 forall|g2: int| #[trigger] table.gen_ok(g2) ==> 0 <= gen_index(&table, g2) < __gens@.len() && __gens@[gen_index(&table, g2)] == g2,
                 prog(&table, i as int, __gens@, __gk as int),
-                kinv(&table, Seq::<(int, int)>::empty()),
-            ensures rows_ok(&table), table.nr_gens == nr_gens, i < table.table@.len(), kinv(&table, Seq::<(int, int)>::empty()),
+                kinv(&table, Seq::<(int, int)>::empty()), tinv(&table, Seq::<(int, int)>::empty()),
+            ensures rows_ok(&table), table.nr_gens == nr_gens, i < table.table@.len(), kinv(&table, Seq::<(int, int)>::empty()), tinv(&table, Seq::<(int, int)>::empty()),
                 forall|k: int| 0 <= k < i && #[trigger] canonical(&table, k) ==> row_complete(&table, k),
                 canonical(&table, i as int) ==> row_complete(&table, i as int),
         {
@@ -1651,6 +1890,7 @@ pub fn coset_table(
                     assert(t0.raw(i as int, g as int) < 0);
                     assert(t0.part.rep(n as int) == n);
                     lemma_kinv_join(&t0, &table, i as int, n as int, g as int);
+                    lemma_tinv_join(&t0, &table, i as int, n as int, g as int);
                     assert(prog(&table, i as int, __gens@, __gk as int));
                 }
 
@@ -1665,7 +1905,7 @@ pub fn coset_table(
                         __gk <= __gens@.len(),
                         forall|j: int| 0 <= j < __gens@.len() ==> table.gen_ok(#[trigger] __gens@[j] as int),
                         prog(&table, i as int, __gens@, __gk as int),
-                        kinv(&table, Seq::<(int, int)>::empty()),
+                        kinv(&table, Seq::<(int, int)>::empty()), tinv(&table, Seq::<(int, int)>::empty()),
                 {
                     for w in it: __set_items(&rels)
                         invariant rows_ok(&table), table.nr_gens == nr_gens, i < table.table@.len(), r < table.table@.len(),
@@ -1675,7 +1915,7 @@ pub fn coset_table(
                             __gk <= __gens@.len(),
                             forall|j: int| 0 <= j < __gens@.len() ==> table.gen_ok(#[trigger] __gens@[j] as int),
                             prog(&table, i as int, __gens@, __gk as int),
-                            kinv(&table, Seq::<(int, int)>::empty()),
+                            kinv(&table, Seq::<(int, int)>::empty()), tinv(&table, Seq::<(int, int)>::empty()),
                     {
                         proof { assert(rels@.contains(*it.seq()[it.index() as int])); assert(within(w@, nr_gens as int)); }
                         if w.len() > 0 && w[0] == h {
@@ -1700,7 +1940,7 @@ pub fn coset_table(
                             __gk <= __gens@.len(),
                             forall|j: int| 0 <= j < __gens@.len() ==> table.gen_ok(#[trigger] __gens@[j] as int),
                             prog(&table, i as int, __gens@, __gk as int),
-                            kinv(&table, Seq::<(int, int)>::empty()),
+                            kinv(&table, Seq::<(int, int)>::empty()), tinv(&table, Seq::<(int, int)>::empty()),
                     {
                         proof {
                             let m = it.index() as int;
@@ -1741,24 +1981,24 @@ pub fn coset_table(
     // that was not discovered).  Check every relator at every live row and
     // merge until the table is consistent.
     loop
-        invariant_except_break rows_ok(&table), table.nr_gens == nr_gens, all_complete(&table), kinv(&table, Seq::<(int, int)>::empty()),
+        invariant_except_break rows_ok(&table), table.nr_gens == nr_gens, all_complete(&table), kinv(&table, Seq::<(int, int)>::empty()), tinv(&table, Seq::<(int, int)>::empty()),
             all_within(subgroup_gens@, nr_gens as int),
             forall|u: FreeWord| #[trigger] rels@.contains(u) ==> within(u@, nr_gens as int),
-        ensures rows_ok(&table), table.nr_gens == nr_gens, all_complete(&table), kinv(&table, Seq::<(int, int)>::empty()),
+        ensures rows_ok(&table), table.nr_gens == nr_gens, all_complete(&table), kinv(&table, Seq::<(int, int)>::empty()), tinv(&table, Seq::<(int, int)>::empty()),
             // the last pass found every due word closing at every row, and changed nothing
             pass_done(&table, rels@, subgroup_gens@, table.table@.len() as int),
     {
         let mut changed = false;
 
         for i in iti: 0..table.len()
-            invariant rows_ok(&table), table.nr_gens == nr_gens, all_complete(&table), kinv(&table, Seq::<(int, int)>::empty()),
+            invariant rows_ok(&table), table.nr_gens == nr_gens, all_complete(&table), kinv(&table, Seq::<(int, int)>::empty()), tinv(&table, Seq::<(int, int)>::empty()),
                 iti.seq().len() == table.table@.len(),
                 all_within(subgroup_gens@, nr_gens as int),
                 forall|u: FreeWord| #[trigger] rels@.contains(u) ==> within(u@, nr_gens as int),
                 !changed ==> pass_done(&table, rels@, subgroup_gens@, i as int),
         {
             for w in it: __words_at(&rels, subgroup_gens, i)
-                invariant rows_ok(&table), table.nr_gens == nr_gens, all_complete(&table), kinv(&table, Seq::<(int, int)>::empty()), i < table.table@.len(), iti.seq().len() == table.table@.len(),
+                invariant rows_ok(&table), table.nr_gens == nr_gens, all_complete(&table), kinv(&table, Seq::<(int, int)>::empty()), tinv(&table, Seq::<(int, int)>::empty()), i < table.table@.len(), iti.seq().len() == table.table@.len(),
                     all_within(subgroup_gens@, nr_gens as int),
                     forall|u: FreeWord| #[trigger] rels@.contains(u) ==> within(u@, nr_gens as int),
                     forall|j: int| 0 <= j < it.seq().len() ==> rels@.contains(*#[trigger] it.seq()[j]) || (i == 0 && is_sub(subgroup_gens@, *it.seq()[j])),
@@ -1810,12 +2050,13 @@ pub fn coset_table(
         }
     }
 
-    proof { lemma_kinv_inverse(&table); }
+    proof { lemma_kinv_inverse(&table); lemma_tinv_reach(&table); }
     let __r = table.compact();
     proof {
         let nw = choose|nw: Seq<int>| compacted(&table, &__r, nw);
         assert(complete_table(&__r));
         assert(valid(&__r));
+        assert(transitive(&__r));
         assert forall|m: int, r: int| 0 <= m < relators@.len() && 0 <= r < __r.table@.len() implies #[trigger] trace(&__r, r, relators@[m]@) == Some(r as usize) by {
             assert(is_row(&__r, r));
             let k = choose|k: int| canonical(&table, k) && #[trigger] nw[k] == r;
@@ -1827,6 +2068,7 @@ pub fn coset_table(
             assert(within(u@, nr_gens as int));
             assert forall|j: int| 0 <= j < u@.len() implies table.col_ok(#[trigger] u@[j] as int) by { assert(-(nr_gens as int) <= u@[j] <= nr_gens); }
             assert(cols_ok(&__r, u@)) by { assert forall|j: int| 0 <= j < u@.len() implies __r.col_ok(#[trigger] u@[j] as int) by { assert(table.col_ok(u@[j] as int)); } }
+            lemma_gens_ok(&table, u@);
             lemma_transport(&table, &__r, nw, k, u@);
             lemma_trace_total(&__r, r, u@);
             if trace(&table, k, u@).is_some() {
@@ -1847,6 +2089,7 @@ pub fn coset_table(
             assert(within(u@, nr_gens as int));
             assert forall|j: int| 0 <= j < u@.len() implies table.col_ok(#[trigger] u@[j] as int) by { assert(-(nr_gens as int) <= u@[j] <= nr_gens); }
             assert(cols_ok(&__r, u@)) by { assert forall|j: int| 0 <= j < u@.len() implies __r.col_ok(#[trigger] u@[j] as int) by { assert(table.col_ok(u@[j] as int)); } }
+            lemma_gens_ok(&table, u@);
             lemma_transport(&table, &__r, nw, k, u@);
             lemma_trace_total(&__r, 0, u@);
         }
